@@ -223,6 +223,11 @@ def _sum_term(sev, env, ps, f, n, origin):
             live.assume(z3.Implies(z3.And(0 <= lo, lo <= hi, hyp2), ps(f, hi) - ps(f2, hi) == ps(f, lo) - ps(f2, lo)))
             hyp3 = forall([i], z3.Implies(z3.And(hi <= i, i < lo), z3.Select(f, i) == z3.Select(f2, i)))
             live.assume(z3.Implies(z3.And(0 <= hi, hi <= lo, hyp3), ps(f, lo) - ps(f2, lo) == ps(f, hi) - ps(f2, hi)))
+            # the two sequences differ at one recently used index k only: the sums differ by f[k] - f2[k]
+            for kk in getattr(live, 'recent_idx', ()):
+                hyp4 = forall([i], z3.Implies(z3.And(0 <= i, i < n, i != kk), z3.Select(f, i) == z3.Select(f2, i)))
+                live.assume(z3.Implies(z3.And(0 <= kk, kk < n, n == n2, hyp4),
+                                       ps(f, n) - ps(f2, n) == z3.Select(f, kk) - z3.Select(f2, kk)))
         reg.append((key, f, n))
     sev.ex.uses_psum = True
     return t
@@ -276,7 +281,8 @@ def sf_sumRatsTimes(sev, env, args):
     nt = sev.term(n)
     t = rpsum(sev, env, z3.Lambda([i], z3.Select(hr, z3.Select(refs, add0(off, i))) * ct), nt, 'sumRatsTimes:' + s.t)
     plain = rpsum(sev, env, z3.Lambda([i], z3.Select(hr, z3.Select(refs, add0(off, i)))), nt, 'sumRats:' + s.t)
-    lem = t == ct * plain
+    # distributivity  sum(q_i * c) = c * sum(q_i), given in the two instances that are used (linear facts):
+    lem = z3.And(z3.Implies(plain == 1, t == ct), z3.Implies(plain == 0, t == 0))
     if env.bound:
         env.live.assume(forall(list(env.bound), lem))
     else:
